@@ -779,6 +779,10 @@ def plan(ctx, ref, quick):
                 sites = sorted(by_site)
                 rng.shuffle(sites)
                 ks = {rng.choice(by_site[s]) for s in sites[:3]}
+            if ref.script['batches'][ki].get('power') and 'gldb.SetSync:stateKey' in labels:
+                # the validator POWER UPDATE block: always die between the application's commit and State.Save, and
+                # right after the save (the following blocks are committed by the restarted node)
+                ks |= {labels.index('gldb.SetSync:stateKey') + 1, len(labels)}
             jobs += [(ki, k, 0) for k in sorted(ks)]
         for _ in range(2):                         # a few nested crashes
             ki = rng.randrange(nk)
@@ -867,12 +871,45 @@ def make_reference(ctx, base, seed):
     raise engine.Inconclusive('reference run failed 3 times: %s' % last)
 
 
+# a scripted transaction that missed its block (timing) is the only reference defect that is not a verdict
+REF_ENVIRONMENTAL = {'tx-lost'}
+
+
+def judge_reference(ref):
+    """The oracle applied to the uncrashed reference run (stopped cleanly at a pause)."""
+    fo = ref.final_off
+    live = {'blocks': fo.get('blocks'), 'nonces': fo.get('nonces'), 'counter': fo.get('counter'), 'kv': fo.get('kv'),
+            'receipts': fo.get('receipts')}
+    seen, out = set(), []
+    for w, d in judge(ref.script, len(ref.script['batches']), [], live, fo):
+        if (w, d.replace('rpc:', 'offline:')) not in seen:
+            seen.add((w, d.replace('rpc:', 'offline:')))
+            out.append((w, d))
+    return out
+
+
+def reference_failure(seed, what, detail):
+    return {'key': 'reference:%s' % ('replay-mismatch' if what == 'replay' else what), 'property': True, 'kind': what,
+            'detail': 'UNCRASHED node, all block kinds committed one after the other with a clean stop/start between them: %s' % detail[:3500],
+            'action': 'reference run', 'step': 0, 'engine': 'c06',
+            'replay': {'engine': 'c06', 'args': [], 'trace': {'mode': 'reference', 'seed': seed, 'what': what}}}
+
+
 def run_replay(ctx, replay, base):
     if replay.get('engine') == 'raftfsm':
         from . import raft_slice
         return raft_slice.run_replay(ctx, replay)
     t = replay['trace']
     ref = make_reference(ctx, base, t.get('seed', ctx.seed))
+    if t.get('mode') == 'reference':
+        rf = judge_reference(ref)
+        ctx.cov['evaluations'] = ctx.cov['traces_validated_against_impl'] = 1
+        ctx.cov['states'] = ctx.cov['transitions'] = 1
+        ctx.sample({'replayed': t, 'failures': [w for w, _ in rf]})
+        for w, detail in rf:
+            if w not in REF_ENVIRONMENTAL:
+                ctx.failures.append(reference_failure(t.get('seed', ctx.seed), w, detail))
+        return
     if t.get('mode') == 'trace':
         fo = ref.final_off
         kvh = [b['height'] for b in fo.get('blocks') or [] if any(x['type'] == 'kv' for _, x in included_txs(ref.script, [b])[0])]
@@ -924,13 +961,40 @@ def run_full(ctx, quick, base):
                   if any(t['type'] == 'kv' for _, t in included_txs(ref.script, [b])[0])]
     val_heights = [b['height'] for b in fo.get('blocks') or []
                    if any(t['type'] == 'admin' for _, t in included_txs(ref.script, [b])[0])]
-    seq, count = included_txs(ref.script, fo.get('blocks') or [])
-    all_tx = [t for b in ref.script['batches'] for t in b['txs']]
-    if any(count.get(t['hash'], 0) != 1 for t in all_tx) or not (fo.get('replay') or {}).get('ok'):
-        ref_fail = judge(ref.script, len(ref.script['batches']), [], {'blocks': fo.get('blocks'), 'nonces': fo.get('nonces'),
-                         'counter': fo.get('counter'), 'kv': fo.get('kv'), 'receipts': fo.get('receipts')}, fo)
-        raise engine.Inconclusive('the UNCRASHED reference run is not clean (%s); nothing can be concluded about crashes'
-                                  % [w for w, _ in ref_fail][:5])
+    # the UNCRASHED run is judged by the same oracle (heights, hashes, exactly-once, re-execution on a fresh node).
+    # A property-level failure that shows again in a second reference run is a verdict ("re-executing the chain
+    # from genesis reproduces every hash recorded in it" does not need a crash); anything else is environmental.
+    rf = judge_reference(ref)
+    if rf:
+        ctx.log('reference run is not clean: %s -- running it once more' % [w for w, _ in rf][:5])
+        os.makedirs(os.path.join(base, 'b'))
+        ref2 = make_reference(ctx, os.path.join(base, 'b'), ctx.seed)
+        rf2 = judge_reference(ref2)
+        common = ({w for w, _ in rf} & {w for w, _ in rf2}) - REF_ENVIRONMENTAL
+        if common:
+            for w, detail in rf2:
+                if w in common:
+                    ctx.failures.append(reference_failure(ctx.seed, w, detail))
+            for n, c, expect in cfgs:
+                r = tlc_f[n].result()
+                if expect is None:
+                    ctx.add_tlc('CommitPipeline/' + n, r)
+            ctx.cov['evaluations'] = ctx.cov['traces_validated_against_impl'] = 2
+            ctx.cov['distinct_nontrivial'] = 2
+            ctx.cov['rule'] = 'two independent uncrashed reference runs (all block kinds, node restarted between kinds) judged by the full oracle'
+            ctx.sample({'reference_failures': sorted(common)})
+            ctx.notes.append('crash enumeration skipped: the uncrashed reference run already contradicts the property')
+            pool.shutdown(wait=False)
+            return
+        if rf2:
+            raise engine.Inconclusive('the UNCRASHED reference run is not clean (%s, then %s) for reasons that do not repeat; '
+                                      'nothing can be concluded about crashes' % ([w for w, _ in rf][:5], [w for w, _ in rf2][:5]))
+        ref = ref2
+        fo = ref.final_off
+        kv_heights = [b['height'] for b in fo.get('blocks') or []
+                      if any(t['type'] == 'kv' for _, t in included_txs(ref.script, [b])[0])]
+        val_heights = [b['height'] for b in fo.get('blocks') or []
+                       if any(t['type'] == 'admin' for _, t in included_txs(ref.script, [b])[0])]
 
     # (T) the uncrashed durable-write sequence is a behaviour of the spec
     trace = build_trace(ref, kv_heights, val_heights)
